@@ -174,12 +174,29 @@ pub struct Sys<F: Flavor> {
     close_calls: u8,
     max_handles: usize,
     symmetry: bool,
+    /// an id that is ahead of everything this channel will ever publish (taken from another
+    /// channel that has seen more updates): letter `AHEAD` of the id alphabet, if enabled
+    ahead: Option<StateId>,
 }
 
 const G: usize = 0;
+/// id letter for "an id from a channel that is ahead of this one"; such a request covers every
+/// publication (`AHEAD_REQ`)
+const AHEAD: u8 = 250;
+const AHEAD_REQ: usize = 1000;
+fn req_of(j: u8) -> usize {
+    if j == AHEAD {
+        AHEAD_REQ
+    } else {
+        j as usize
+    }
+}
 
 impl<F: Flavor> Sys<F> {
     fn id_for(&self, j: usize) -> Option<StateId> {
+        if j == AHEAD as usize || j == AHEAD_REQ {
+            return self.ahead;
+        }
         if j == 0 {
             Some(StateId::new())
         } else {
@@ -291,6 +308,15 @@ impl<F: Flavor> System for Sys<F> {
             close_calls: 0,
             max_handles: cfg.get_or("handles", 2) as usize,
             symmetry: cfg.get_or("symmetry", 1) != 0,
+            ahead: if cfg.flag("foreign") {
+                let other = futures_intrusive::channel::LocalStateBroadcastChannel::<u8>::new();
+                for x in 0..cfg.get_or("sends", 3) as u8 + 2 {
+                    let _ = other.send(x);
+                }
+                other.try_receive(StateId::new()).map(|r| r.0)
+            } else {
+                None
+            },
         }
     }
 
@@ -306,6 +332,9 @@ impl<F: Flavor> System for Sys<F> {
                             if self.id_for(j).is_some() {
                                 v.push(Op::Create(i as u8, j as u8));
                             }
+                        }
+                        if self.ahead.is_some() {
+                            v.push(Op::Create(i as u8, AHEAD));
                         }
                         created = true;
                     }
@@ -326,6 +355,9 @@ impl<F: Flavor> System for Sys<F> {
                 if self.id_for(j).is_some() {
                     v.push(Op::TryReceive(j as u8));
                 }
+            }
+            if self.ahead.is_some() {
+                v.push(Op::TryReceive(AHEAD));
             }
         }
         if self.next_tag < self.budget && F::senders(&self.chan) > 0 {
@@ -363,7 +395,7 @@ impl<F: Flavor> System for Sys<F> {
                     Ok(f) => {
                         let mut meta = Meta::default();
                         meta.seen = sample_seen(G, i);
-                        self.slots[i] = Some(Slot { fut: Pinned::new(f), meta, req: j as usize });
+                        self.slots[i] = Some(Slot { fut: Pinned::new(f), meta, req: req_of(j) });
                     }
                     Err(p) => out.v("C01", "panic", format!("receive() panicked: {}", p)),
                 }
@@ -436,11 +468,11 @@ impl<F: Flavor> System for Sys<F> {
                     Err(p) => out.v("C01", "panic", format!("try_receive() panicked: {}", p)),
                     Ok(Some((rid, v))) => {
                         out.o(&format!("Some({})", v.0));
-                        self.on_result("try_receive", j as usize, rid, v.0, out);
+                        self.on_result("try_receive", req_of(j), rid, v.0, out);
                     }
                     Ok(None) => {
                         out.o("None");
-                        if (j as usize) < self.log.len() {
+                        if req_of(j) < self.log.len() {
                             out.v("C13", "none-despite-newer-state", format!("try_receive returned None although a state newer than the requested id (covers {} of {} publications) is published", j, self.log.len()));
                         }
                     }
